@@ -73,6 +73,10 @@ func domain(thorough bool, level int) []msg {
 			d = prod(d, append(rng(0, 64), 255, 256, 257, 1023, 1024, 1025), []int{-1, 0, 1, 5, 16, 17, 40}, -1)
 			d = prod(d, []int{0, 1, 16, 17, 33}, []int{255, 256, 257}, -1)
 			d = prod(d, []int{4095, 4096, 4097, 65535, 65536, 65537}, []int{-1, 17}, -1)
+			// every plaintext length (and, separately, every AD length) well beyond the first blocks: batched /
+			// strided processing of leading blocks only shows for particular length classes
+			d = prod(d, rng(65, 420), []int{5}, -1)
+			d = prod(d, []int{17}, rng(41, 420), -1)
 		case 1:
 			d = prod(d, append(rng(0, 17), 31, 32, 33, 48, 64, 255, 256, 257), []int{-1, 0, 1, 17}, -1)
 			d = prod(d, []int{0, 17}, []int{256}, -1)
@@ -90,6 +94,8 @@ func domain(thorough bool, level int) []msg {
 			d = prod(d, []int{0, 1, 15, 16, 17, 31, 32, 33, 64}, []int{255, 256, 257}, pat)
 			d = prod(d, rng(0, 80), []int{-1, 5}, pat)
 		}
+		d = prod(d, rng(81, 1300), []int{-1, 5}, -1)
+		d = prod(d, []int{17, 64}, rng(41, 1300), -1)
 	case 1:
 		d = prod(d, append(rng(0, 33), 63, 64, 65, 255, 256, 257, 1023, 1024, 1025), []int{-1, 0, 1, 16, 17}, -1)
 		d = prod(d, []int{65535, 65536, 65537}, []int{-1}, -1)
